@@ -58,6 +58,10 @@ type c14Cand struct {
 	S20  bool `json:"s20"`
 	S36  bool `json:"s36"`
 	Tail int  `json:"tail"`
+	// LenF: what the structure's own Length field says, plus one (0: the usual 36).  Only decoys whose 36 bytes do
+	// not sum to zero carry a value other than 36, and only values below 36: what a rejected structure claims about
+	// its own length is firmware garbage, and the checksum is over the 36 bytes of the structure (seeded C14-n).
+	LenF int `json:"lenf,omitempty"`
 }
 
 type c14Table struct {
@@ -399,6 +403,9 @@ func (a *c14Arena) build(c *c14Case) c14Layout {
 		p[15] = byte(cd.Rev)
 		c14le.PutUint32(p[16:], uint32(lay.rsdt))
 		c14le.PutUint32(p[20:], 36)
+		if cd.LenF > 0 {
+			c14le.PutUint32(p[20:], uint32(cd.LenF-1))
+		}
 		c14le.PutUint64(p[24:], uint64(lay.xsdt))
 		if !cd.Sig {
 			p[7] = '_'
@@ -840,6 +847,11 @@ func c14RandImage(rng *rand.Rand) c14Case {
 		}
 		if rng.Intn(5) == 0 {
 			cd.Sig, cd.S20, cd.S36 = false, true, true // near-miss signature, otherwise a perfect structure
+		} else if r != 0 && rng.Intn(2) == 0 {
+			// the decoy's own Length field: 0, the 20 legacy bytes, anything below 36 (its legacy sum is then
+			// mostly valid: the structure that a "sum over Length bytes" would wrongly accept)
+			cd.LenF = 1 + []int{0, 20, 20, rng.Intn(36)}[rng.Intn(4)]
+			cd.S20 = rng.Intn(4) != 0
 		}
 		return cd
 	}
